@@ -230,8 +230,9 @@ Definition nl_str2int (base : Z) (s : list Z) : option Z :=
           let '(base, body) :=
             if base =? 0 then
               match body with
-              | 48 :: bc :: r2 =>
-                  if (bc =? 98) || (bc =? 66) then (2, r2)
+              | b0 :: bc :: r2 =>
+                  if negb (b0 =? 48) then (10, body)
+                  else if (bc =? 98) || (bc =? 66) then (2, r2)
                   else if (bc =? 120) || (bc =? 88) then (16, r2)
                   else (10, body)
               | _ => (10, body)
